@@ -79,6 +79,16 @@ def check_artefact(ctx, a, stats):
             ptol = 4 * Rx**2 * xat / (2 * lam) + 5 * atol * max(1.0, abs(want_psi))
             if opts.get("psi_interpolation_method", "spline") == "dct":
                 ptol = max(ptol, 3e-4 * gu.psi_scale(a))
+            # a double null gridded as connected (one separatrix index for both X-points,
+            # documented: nx_inter_sep=0) deliberately pins its secondary X-point on the grid line
+            # of the primary separatrix: the allowed mismatch is then the psi difference between
+            # the two X-points (the code refuses unless that is less than the first cell)
+            seps = side["eq"].get("psi_sep") or []
+            if len(seps) == 2 and int(side["eq"]["user_options"].get("nx_inter_sep", 1) or 0) == 0:
+                if abs(want_psi - float(seps[0])) <= ptol and abs(psix - float(seps[1])) <= ptol:
+                    stats["pinned_secondary_xpoint_of_connected_double_null"] = stats.get(
+                        "pinned_secondary_xpoint_of_connected_double_null", 0) + 1
+                    continue
             ctx.setmax("worst_pinned_corner_psi_mismatch_over_tol", abs(psix - want_psi) / ptol)
             if abs(psix - want_psi) > ptol:
                 ctx.violation(
